@@ -116,6 +116,8 @@ TRelease ==
            h1 == B!Add(hits, One)
        IN
        /\ e.t = due
+       \* the instantaneous rate the pacer declares (Pacer.Rate) is the derivative of the schedule the loop is held to (1 ppm)
+       /\ ("rdev" \in DOMAIN e => e.rdev <= 1000)
        /\ IF Positive
           THEN \* Upper:  hits <= H(t) + 1 + q      <=>  hits*P <= F*t + P + hits*F
                /\ B!Le(B!Mul(h1, P), B!Add(B!Add(B!Mul(F, e.t), P), B!Mul(h1, F)))
